@@ -9,8 +9,15 @@ import sys
 import tempfile
 import threading
 
+from collections.abc import Sequence  # noqa: F401  (string return hints of generated getters are resolved in this module)
+
 from . import robot_rt as rt
 from . import simenv
+
+try:  # noqa
+    from wpimath.geometry import Rotation2d  # noqa: F401
+except Exception:  # the runner process imports this module without needing wpimath
+    Rotation2d = None
 
 HINTS = ["int", "float", "bool", "str", "int[]", "float[]", "bool[]", "str[]", "rot", "rot[]", None]
 TYPE_STR = {"int": "int", "float": "double", "bool": "boolean", "str": "string", "int[]": "int[]", "float[]": "double[]",
@@ -65,8 +72,43 @@ def fb_key(fb):
     return n[4:] if n.startswith("get_") else n
 
 
-def _mk_method(name, site, ret=None):
-    """A method `name(self)` that reports to the recorder; for feedbacks it also returns the scripted value."""
+HINT_SRC = {"int": "int", "float": "float", "bool": "bool", "str": "str", "rot": "Rotation2d",
+            "int[]": ["Sequence[int]", "list[int]", "tuple[int, ...]"], "float[]": ["Sequence[float]", "list[float]", "tuple[float, ...]"],
+            "bool[]": ["Sequence[bool]", "list[bool]", "tuple[bool, ...]"], "str[]": ["Sequence[str]", "list[str]", "tuple[str, ...]"],
+            "rot[]": ["Sequence[Rotation2d]", "list[Rotation2d]", "tuple[Rotation2d, ...]"]}
+
+
+def hint_for(fb):
+    """The return annotation of a generated getter: a type object, or - as `from __future__ import annotations` or a
+    quoted hint would leave it - the source text of the same type."""
+    if fb["hint"] is None:
+        return None
+    if fb.get("string_hint"):
+        src = HINT_SRC[fb["hint"]]
+        return src if isinstance(src, str) else src[fb.get("variant", 0) % 3]
+    return hint_obj(fb["hint"], fb.get("variant", 0))
+
+
+def _mk_method(name, site, ret=None, dyn=None):
+    """A method `name(self)` that reports to the recorder; for feedbacks it also returns the scripted value.
+    dyn: suffix for classes shared by several components - the site is then derived from the name MagicRobot gave
+    the instance (its injected logger), e.g. '<component>.execute'."""
+    if dyn is not None:
+        if ret is None:
+            def m(self):
+                rt.cb(f"{self.logger.name}.{dyn}")
+        else:
+            hint, nohint_kind, same_object = ret
+
+            def m(self):
+                st = f"{self.logger.name}.{dyn}"
+                c = rt.CUR.counts.get(st, 0)
+                v = fb_value(hint, c, nohint_kind)
+                rt.cb(st, v)
+                return v
+        m.__name__ = name
+        m.__qualname__ = name
+        return m
     if ret is None:
         def m(self):
             rt.cb(site)
@@ -96,6 +138,14 @@ def build_robot(spec):
     comp_classes = {}
     tracked = []
     for cname, c in spec["components"].items():
+        for r in c.get("resets", ()):
+            tracked.append((cname, r["attr"]))
+        for s in c.get("sentinels", ()):
+            tracked.append((cname, s["attr"]))
+        if c.get("same_class_as"):
+            continue
+        shared = any(o.get("same_class_as") == cname for o in spec["components"].values())
+        dyn = (lambda suffix: suffix) if shared else (lambda suffix: None)
         body = {}
 
         def ctor(self, _site=f"{cname}.ctor", _c=c):
@@ -103,19 +153,20 @@ def build_robot(spec):
                 setattr(self, s["attr"], s["value"])
             rt.cb(_site)
         body["__init__"] = ctor
-        body["execute"] = _mk_method("execute", f"{cname}.execute")
+        body["execute"] = _mk_method("execute", f"{cname}.execute", dyn=dyn("execute"))
         for hook in ("on_enable", "on_disable"):
             if c.get("has_" + hook):
-                body[hook] = _mk_method(hook, f"{cname}.{hook}")
+                body[hook] = _mk_method(hook, f"{cname}.{hook}", dyn=dyn(hook))
         if c.get("has_setup"):
-            def setup(self, _site=f"{cname}.setup", _c=c, _spec=spec):
+            def setup(self, _site=f"{cname}.setup", _c=c, _spec=spec, _shared=shared):
                 r = rt.CUR.robot
                 present = [hasattr(r, n) for n in _spec["components"]]
                 inj = [getattr(self, a, None) is getattr(r, a, rt.ABSENT) for a in _c.get("inject", ())]
                 # "after all injection is done": every component, not only this one, already has its injected attributes
                 everyone = [getattr(getattr(r, n, None), a, None) is getattr(r, a, rt.ABSENT)
                             for n, cc in _spec["components"].items() for a in cc.get("inject", ())]
-                rt.cb(_site, {"all_components_exist": all(present), "injected_identity": inj, "all_injected": all(everyone)})
+                rt.cb(f"{self.logger.name}.setup" if _shared else _site,
+                      {"all_components_exist": all(present), "injected_identity": inj, "all_injected": all(everyone)})
             body["setup"] = setup
         base_body = {}
         for r in c.get("resets", ()):
@@ -123,24 +174,26 @@ def build_robot(spec):
             if "base_default" in r and not r.get("inherited"):
                 # the subclass re-declares a marker it inherits, with another default: the subclass's one counts
                 base_body[r["attr"]] = will_reset_to(r["base_default"])
-            tracked.append((cname, r["attr"]))
         for s in c.get("sentinels", ()):
             if "shadowed_marker_default" in s:
                 # an inherited marker shadowed by a plain attribute of the subclass: no longer a reset attribute
                 base_body[s["attr"]] = will_reset_to(s["shadowed_marker_default"])
                 body[s["attr"]] = s["value"]
-            tracked.append((cname, s["attr"]))
         for fb in c.get("feedbacks", ()):
-            f = _mk_method(fb["name"], f"{cname}.fb.{fb['name']}", (fb["hint"], fb.get("nohint_kind", "float"), fb.get("same_object", False)))
-            h = hint_obj(fb["hint"], fb.get("variant", 0))
+            f = _mk_method(fb["name"], f"{cname}.fb.{fb['name']}", (fb["hint"], fb.get("nohint_kind", "float"), fb.get("same_object", False)),
+                           dyn=dyn(f"fb.{fb['name']}"))
+            h = hint_for(fb)
             if h is not None:
                 f.__annotations__ = {"return": h}
             body[fb["name"]] = feedback(f) if fb.get("key") is None else feedback(key=fb["key"])(f)
         bases = (type("B_" + cname, (), base_body),) if base_body else ()
         comp_classes[cname] = type("C_" + cname, bases, body)
     for cname, c in spec["components"].items():
+        if c.get("same_class_as"):
+            comp_classes[cname] = comp_classes[c["same_class_as"]]
+    for cname, c in spec["components"].items():
         ann = {a: comp_classes[a] for a in c.get("inject", ())}
-        if ann:
+        if ann and not c.get("same_class_as"):
             comp_classes[cname].__annotations__ = ann
     # ---- robot class chain
     MagicRobot = magicbot.MagicRobot
@@ -163,7 +216,7 @@ def build_robot(spec):
             body["use_teleop_in_autonomous"] = spec["teleop_in_auto"]
             for fb in spec.get("robot_feedbacks", ()):
                 f = _mk_method(fb["name"], f"R.fb.{fb['name']}", (fb["hint"], fb.get("nohint_kind", "float"), fb.get("same_object", False)))
-                h = hint_obj(fb["hint"], fb.get("variant", 0))
+                h = hint_for(fb)
                 if h is not None:
                     f.__annotations__ = {"return": h}
                 body[fb["name"]] = feedback(f) if fb.get("key") is None else feedback(key=fb["key"])(f)
